@@ -125,8 +125,20 @@ func (stress) Run(line string) string {
 	close(start)
 	select {
 	case <-done:
-	case <-time.After(60 * time.Second):
-		return "FAIL writers did not finish within 60s (a Write never returned)"
+	case <-time.After(envMS("C12_STRESS_MS", 20000)):
+		// make the spinning writers fail (see rot.write) so that they do not burn cores for the rest of the run
+		stop := time.Now().Add(5 * time.Second)
+		for time.Now().Before(stop) {
+			_ = os.RemoveAll(root)
+			_ = os.WriteFile(root, []byte("x"), 0o600)
+			select {
+			case <-done:
+				stop = time.Now()
+			case <-time.After(5 * time.Millisecond):
+			}
+		}
+		_ = os.Remove(root)
+		return "FAIL writers did not finish within the deadline (a Write never returned)"
 	}
 	_ = r.Close()
 	if len(problems) > 0 {
